@@ -37,10 +37,42 @@ def _dstar_keys(m, e):
 
 
 def _delegations(func):
-    """Yield (stmt, call) for `return K(...)` statements of a function."""
+    """Yield (stmt, call) for delegating calls of a function: `return K(...)`, or `v = K(...)` whose v is later returned unchanged."""
+    returned = {s.value[1] for s in walk_stmts(func.body) if s.k == 'return' and s.value is not None and s.value[0] == 'var'}
     for s in walk_stmts(func.body):
         if s.k == 'return' and s.value is not None and s.value[0] == 'call':
             yield s, s.value
+        elif s.k == 'assign' and s.target[0] == 'var' and s.target[1] in returned and s.value[0] == 'call' \
+                and s.target[1] not in func.args + func.kwonly:   # `if p is None: p = K(...)` fills a default, it does not delegate
+            others = [t for t in walk_stmts(func.body) if t.k == 'assign' and t.target == s.target and t is not s and t.value[0] != 'call']
+            if not others:
+                yield s, s.value
+
+
+class _PyxTarget:
+    """Adapter presenting a PyxFunc like a PyFunc for bind_args."""
+
+    def __init__(self, f):
+        self.qual = f.qual
+        self.args = [a.name for a in f.args]
+        self.kwonly = []
+        self.kwarg = f.kwarg
+        self.vararg = f.vararg
+
+
+def _resolve_any(m, mod, f, call):
+    r = resolve_call(m, mod, f, call)
+    if r is not None:
+        return r
+    d = dotted(call[1]) or ''
+    parts = d.split('.')
+    from .sig import PYX_LOCALS
+    if len(parts) == 2 and parts[0] in PYX_LOCALS:
+        pyx = m.pyx(PYX_LOCALS[parts[0]])
+        t = pyx.funcs.get(parts[1])
+        if t is not None:
+            return pyx, _PyxTarget(t), False
+    return None
 
 
 def rule_delegation(ctx, m, modules, floor=None):
@@ -54,7 +86,7 @@ def rule_delegation(ctx, m, modules, floor=None):
             if not wparams and not f.kwarg:
                 continue
             for s, call in _delegations(f):
-                r = resolve_call(m, mod, f, call)
+                r = _resolve_any(m, mod, f, call)
                 if r is None:
                     continue
                 tmod, target, bound = r
